@@ -93,7 +93,7 @@ class C12(P.Property):
         meta_writes = []  # (event index, state, site, conn)
 
         def on_disk(rec):
-            if rec["proc"].startswith("server") and rec["path"].endswith("service_meta") and rec["kind"] == "write" and rec["applied"]:
+            if rec["role"] == "server" and rec["path"] == SID + "/service_meta" and rec["kind"] in ("write", "replace", "rename") and rec["applied"]:
                 try:
                     with open(run.sse_path(rec["path"]), "rb") as f:
                         st = pickle.load(f).get("state")
